@@ -31,9 +31,9 @@ ValueSteps == {"some", "newtype_struct", "newtype_variant", "seq_elem", "tuple_e
 Steps == ValueSteps \cup {"map_key"}
 
 Leaves == {"bool", "i32", "i64", "f64fin", "f64nan", "f64inf", "f64ninf", "str", "strNaN",
-           "bytes0", "bytes1", "bytes2", "bytes3", "uuid", "enum", "unit"}
+           "bytes0", "bytes1", "bytes2", "bytes3", "bytesbig", "uuid", "enum", "unit"}      \* bytesbig: > 1 KiB (past any internal buffer)
 KeyLeaves == Leaves \ {"unit"}
-IsBytes(l) == l \in {"bytes0", "bytes1", "bytes2", "bytes3"}
+IsBytes(l) == l \in {"bytes0", "bytes1", "bytes2", "bytes3", "bytesbig"}
 NonFinite(l) == l \in {"f64nan", "f64inf", "f64ninf"}
 FloatText(l) == CASE l = "f64nan" -> "NaN" [] l = "f64inf" -> "Infinity" [] l = "f64ninf" -> "-Infinity" [] OTHER -> "dec"
 
